@@ -3,12 +3,15 @@
   PROPERTY THEOREMS ONLY (helpers are in Lemmas/Merge.lean).
   Model: Model/Merge.lean; extracted tables: Generated/Shard.lean, Generated/OpTable.lean.
 
-  PARTIAL by design: the theorems quantify over every assignment of work units to workers and
-  every per-worker claim order (any number of workers). That a worker cannot observe another
-  worker's delta or a torn store (data races) is Rust's type system (`&GraphStore` shared
-  immutably, private `TickDelta`s) — named, not proved; real threads are exercised by the harness.
+  The schedule theorems are FULL statements about the model: they quantify over every worker count,
+  every assignment of work units to workers, every per-worker claim order and every outcome of the
+  claim race of each policy. What no model of this kind can contain — that a worker thread cannot
+  observe another worker's delta or a torn store (data races) — is Rust's type system
+  (`&GraphStore` shared immutably, private `TickDelta`s); it is listed under `assumptions` in the
+  index, and real threads are exercised by the harness.
 -/
 import EchoVerif.Lemmas.Merge
+import EchoVerif.Lemmas.MergePolicy
 
 set_option linter.unusedSimpArgs false
 set_option linter.unusedVariables false
@@ -122,13 +125,12 @@ theorem merge_variants_agree (rs : List WorkerRes) (out : List Op) :
 section Sched
 variable {ι : Type} (f : Nat → ι → ItemOut) (hs : Nat → Bool)
 
-/-- **schedule_invisible.** If every unit's store exists and no item is poisoned, then for EVERY
+/-- **schedule_commit_value.** If every unit's store exists and no item is poisoned, then for EVERY
     schedule `σ` that claims each unit exactly once — any number of workers (idle ones included),
     any assignment of units to workers, any claim order inside a worker — the merged ops (both
-    variants, result or error class) equal those of one worker running all units in order. Hence
-    the post-state `applyOps pre ops`, the patch `diffState pre post` and every digest pre-image
-    computed from them do not depend on `σ`, the worker count or the policy. -/
-theorem schedule_invisible (units : List (WUnit ι)) (hg : ∀ u ∈ units, GoodUnit f hs u)
+    variants, result or error class) are those of the single delta holding all entries in unit
+    order. -/
+theorem schedule_commit_value (units : List (WUnit ι)) (hg : ∀ u ∈ units, GoodUnit f hs u)
     {σ : Schedule} (hv : σ.Valid units.length) :
     mergeB (runSchedule f hs units σ) = mergeB [.success (allEntries f units)] ∧
     mergeA (runSchedule f hs units σ) = mergeA [.success (allEntries f units)] := by
@@ -140,13 +142,65 @@ theorem schedule_invisible (units : List (WUnit ι)) (hg : ∀ u ∈ units, Good
     simp only [List.flatMap_cons, List.flatMap_nil, List.append_nil, WorkerRes.entries, allEntries]
     exact List.Perm.flatMap_right _ (resolve_perm units hv)
 
-/-- any two schedules of the same units commit the same thing. -/
-theorem schedule_invisible_pair (units : List (WUnit ι)) (hg : ∀ u ∈ units, GoodUnit f hs u)
+/-- one worker claiming every unit in order is a valid schedule. -/
+theorem serial_valid (n : Nat) : Schedule.Valid [List.range n] n := by
+  unfold Schedule.Valid
+  simp
+
+/-- a tick with a bad unit whose stores were all pre-validated is `poisoned` under every schedule. -/
+private theorem bad_tick_poisoned (units : List (WUnit ι)) (hst : ∀ u ∈ units, hs u.warp = true)
+    {u : WUnit ι} (hu : u ∈ units) (hbad : ¬ GoodUnit f hs u)
+    {σ : Schedule} (hv : σ.Valid units.length) :
+    mergeB (runSchedule f hs units σ) = .error .poisoned ∧
+    mergeA (runSchedule f hs units σ) = .error .poisoned := by
+  have hM := runSchedule_no_missing f hs units σ hst
+  have hP : (runSchedule f hs units σ).any WorkerRes.isPoisoned = true := by
+    rcases bad_unit_flag f hs units hu hbad hv with h | h
+    · rw [hM] at h; cases h
+    · exact h
+  unfold mergeB mergeA
+  rw [hM, hP]
+  simp
+
+private theorem good_or_bad (units : List (WUnit ι)) :
+    (∀ u ∈ units, GoodUnit f hs u) ∨ ∃ u, u ∈ units ∧ ¬ GoodUnit f hs u := by
+  apply Classical.byContradiction
+  intro hne
+  apply hne
+  left
+  intro u hu
+  apply Classical.byContradiction
+  intro hb
+  exact hne (Or.inr ⟨u, hu, hb⟩)
+
+/-- **schedule_invisible.** For EVERY tick whose stores exist (what `apply_reserved_rewrites`
+    validates before building units) — poisoned items, conflicts and new-warp writes included, no
+    hypothesis on the executors — and EVERY schedule `σ` that claims each unit exactly once (any
+    number of workers, idle ones included, any assignment of units to workers, any claim order
+    inside a worker), the result of the merge (both variants; op list or error class) equals that
+    of ONE worker claiming all units in order. Hence the post-state `applyOps pre ops`, the patch
+    `diffState pre post` and every digest pre-image computed from them do not depend on `σ`, the
+    worker count or the policy. -/
+theorem schedule_invisible (units : List (WUnit ι)) (hst : ∀ u ∈ units, hs u.warp = true)
+    {σ : Schedule} (hv : σ.Valid units.length) :
+    mergeB (runSchedule f hs units σ) = mergeB (runSchedule f hs units [List.range units.length]) ∧
+    mergeA (runSchedule f hs units σ) = mergeA (runSchedule f hs units [List.range units.length]) := by
+  have hv1 := serial_valid units.length
+  rcases good_or_bad f hs units with hg | ⟨u, hu, hbad⟩
+  · have h1 := schedule_commit_value f hs units hg hv
+    have h2 := schedule_commit_value f hs units hg hv1
+    exact ⟨h1.1.trans h2.1.symm, h1.2.trans h2.2.symm⟩
+  · have h1 := bad_tick_poisoned f hs units hst hu hbad hv
+    have h2 := bad_tick_poisoned f hs units hst hu hbad hv1
+    exact ⟨h1.1.trans h2.1.symm, h1.2.trans h2.2.symm⟩
+
+/-- any two valid schedules of the same units give the same merge result (ops or error class). -/
+theorem schedule_invisible_pair (units : List (WUnit ι)) (hst : ∀ u ∈ units, hs u.warp = true)
     {σ σ' : Schedule} (hv : σ.Valid units.length) (hv' : σ'.Valid units.length) :
     mergeB (runSchedule f hs units σ) = mergeB (runSchedule f hs units σ') ∧
     mergeA (runSchedule f hs units σ) = mergeA (runSchedule f hs units σ') := by
-  have h1 := schedule_invisible f hs units hg hv
-  have h2 := schedule_invisible f hs units hg hv'
+  have h1 := schedule_invisible f hs units hst hv
+  have h2 := schedule_invisible f hs units hst hv'
   exact ⟨h1.1.trans h2.1.symm, h1.2.trans h2.2.symm⟩
 
 /-- **poison_no_commit.** If some unit has no store or contains an item whose execution panics or
@@ -185,6 +239,25 @@ theorem poison_never_ok (units : List (WUnit ι)) {u : WUnit ι} (hu : u ∈ uni
   constructor
   · rcases hb with h | h <;> rw [h] <;> intro e <;> cases e
   · rcases ha with h | h <;> rw [h] <;> intro e <;> cases e
+
+/-- **schedule_commit_iff.** With NO hypothesis at all (stores may be missing): what is committed
+    does not depend on the schedule — two valid schedules commit the same op list or both commit
+    nothing. (Without pre-validated stores only the error CLASS of a tick that is both store-less
+    and poisoned can differ: a worker that returns early at a poisoned item never reaches a later
+    store-less unit.) -/
+theorem schedule_commit_iff (units : List (WUnit ι))
+    {σ σ' : Schedule} (hv : σ.Valid units.length) (hv' : σ'.Valid units.length) (out : List Op) :
+    (mergeB (runSchedule f hs units σ) = .ok out ↔ mergeB (runSchedule f hs units σ') = .ok out) ∧
+    (mergeA (runSchedule f hs units σ) = .ok out ↔ mergeA (runSchedule f hs units σ') = .ok out) := by
+  rcases good_or_bad f hs units with hg | ⟨u, hu, hbad⟩
+  · have h1 := schedule_commit_value f hs units hg hv
+    have h2 := schedule_commit_value f hs units hg hv'
+    rw [h1.1, h1.2, h2.1, h2.2]
+    exact ⟨Iff.rfl, Iff.rfl⟩
+  · have h1 := poison_never_ok f hs units hu hbad hv out
+    have h2 := poison_never_ok f hs units hu hbad hv' out
+    exact ⟨⟨fun h => absurd h h1.1, fun h => absurd h h2.1⟩,
+      ⟨fun h => absurd h h1.2, fun h => absurd h h2.2⟩⟩
 
 end Sched
 
@@ -267,6 +340,78 @@ theorem policy_refines_schedule :
     exact group_by_owner_perm_all (fun it => shardOf (scope it)) items Generated.numShards
       (fun it _ => shardOf_lt _)
 
+/-- every claim outcome of each of the five `ParallelExecutionPolicy` constants is a valid schedule
+    of the `n` shards. -/
+theorem policy_schedule_valid (p : Policy) (owner : Nat → Nat) (w n : Nat) (hw : 0 < w)
+    (ho : ∀ s, s < n → owner s < w) : (p.schedule owner w n).Valid n := by
+  obtain ⟨hst, hdyn, hps, _, _⟩ := policy_refines_schedule
+  cases p
+  · exact hdyn owner w n ho
+  · exact hdyn owner w n ho
+  · exact hst w n hw
+  · exact hst w n hw
+  · exact hps n
+
+/-- **policy_exec_refines_schedule.** The executors themselves (functions returning the list of
+    deltas, Model/MergePolicy.lean) are runs of valid schedules:
+    * the claim outcome of each of the five policies is a valid schedule, for every race outcome;
+    * `PerWorker` accumulation (DynamicPerWorker, StaticPerWorker) returns literally
+      `runSchedule` of that schedule on the shard units;
+    * `PerShard` accumulation (DynamicPerShard, StaticPerShard, DedicatedPerShard) returns, under
+      every claim outcome, one delta per non-empty shard — the `perShard` schedule's deltas with
+      the item-less shards dropped;
+    * `execute_work_queue` with a non-empty queue is `runSchedule` of a valid schedule for every
+      outcome of the claim counter. -/
+theorem policy_exec_refines_schedule {ι : Type} (g : ι → List Entry) (sh : Nat → List ι) :
+    (∀ (p : Policy) (owner : Nat → Nat) (w n : Nat), 0 < w → (∀ s, s < n → owner s < w) →
+      (p.schedule owner w n).Valid n) ∧
+    (∀ (warp n : Nat) (σ : Schedule), σ.Valid n →
+      (perWorkerDeltas g sh σ).map WorkerRes.success =
+        runSchedule (fun _ it => ItemOut.ok (g it)) (fun _ => true) (shardUnits warp sh n) σ) ∧
+    (∀ (n : Nat) (σ : Schedule), σ.Valid n →
+      (perShardDeltas g sh σ).Perm
+        (((List.range n).filter (fun s => !(sh s).isEmpty)).map (shardDelta g sh))) ∧
+    (∀ (f : Nat → ι → ItemOut) (hs : Nat → Bool) (units : List (WUnit ι)) (owner : Nat → Nat)
+      (w : Nat), units ≠ [] → (∀ s, s < units.length → owner s < w) →
+      ∃ σ : Schedule, σ.Valid units.length ∧
+        execWorkQueue f hs units owner w = runSchedule f hs units σ) := by
+  refine ⟨policy_schedule_valid, ?_, ?_, ?_⟩
+  · intro warp n σ hv
+    apply perWorker_eq_runSchedule
+    intro c hc s hsc
+    have : s ∈ σ.flatten := List.mem_flatten.mpr ⟨c, hc, hsc⟩
+    exact List.mem_range.mp (hv.mem_iff.mp this)
+  · intro n σ hv
+    exact perShard_perm g sh hv
+  · intro f hs units owner w hne ho
+    refine ⟨dynamicSteal owner w units.length, policy_refines_schedule.2.1 owner w _ ho, ?_⟩
+    unfold execWorkQueue
+    have : units.isEmpty = false := by
+      cases units with
+      | nil => exact absurd rfl hne
+      | cons _ _ => rfl
+    rw [this]
+    rfl
+
+/-- **policy_invisible.** `execute_parallel_with_policy` + merge: for each of the five policies,
+    every worker count `w ≥ 1` and EVERY outcome `owner` of the claim race, merging the returned
+    deltas (both variants) gives the result of merging the one delta a single worker produces by
+    running the shards in order — the `total_items == 0` early return included. -/
+theorem policy_invisible {ι : Type} (g : ι → List Entry) (sh : Nat → List ι) (p : Policy)
+    (owner : Nat → Nat) (w n : Nat) (hw : 0 < w) (ho : ∀ s, s < n → owner s < w) :
+    mergeB ((execPolicy g sh owner p w n).map WorkerRes.success) =
+      mergeB [.success ((List.range n).flatMap (shardDelta g sh))] ∧
+    mergeA ((execPolicy g sh owner p w n).map WorkerRes.success) =
+      mergeA [.success ((List.range n).flatMap (shardDelta g sh))] := by
+  have hf := success_no_flags (execPolicy g sh owner p w n)
+  have hf1 := success_no_flags [(List.range n).flatMap (shardDelta g sh)]
+  apply merge_perm
+  · rw [hf.1]; exact hf1.1.symm
+  · rw [hf.2]; exact hf1.2.symm
+  · rw [success_entries_flatten]
+    simp only [List.flatMap_cons, List.flatMap_nil, List.append_nil, WorkerRes.entries]
+    exact execPolicy_flatten_perm g sh owner p w n (policy_schedule_valid p owner w n hw ho)
+
 /-- **units_partition_items.** `build_work_units` neither drops nor duplicates an accepted rewrite:
     the items of all (warp, shard) units are a permutation of the exec items, whatever
     `NUM_SHARDS` / `shard_of` are. With `schedule_invisible` the committed ops are therefore a
@@ -298,6 +443,19 @@ example : GoodUnit (fun _ (_ : Nat) => ItemOut.ok []) (fun _ => true) { warp := 
   ⟨rfl, fun _ _ h => by cases h⟩
 example : ¬ GoodUnit (fun _ (_ : Nat) => ItemOut.poison) (fun _ => true) { warp := 1, items := [7] } :=
   fun h => h.2 7 (by simp) rfl
+
+/-- the unconditional `schedule_invisible` is not vacuous on bad ticks: a poisoned unit next to a
+    good one is `poisoned` under the serial and under a split schedule. -/
+example :
+    mergeB (runSchedule (fun _ (n : Nat) => if n = 7 then ItemOut.poison else .ok [])
+      (fun _ => true) [{ warp := 1, items := [7] }, { warp := 1, items := [8] }] [[1], [0]])
+      = .error .poisoned := by rfl
+
+/-- the five policies really differ in the deltas they return (2 shards, 2 workers). -/
+example : (Policy.schedule (fun _ => 0) 2 4 .staticPerWorker) = [[0, 2], [1, 3]] ∧
+    (Policy.schedule (fun _ => 0) 2 4 .dynamicPerWorker) = [[0, 1, 2, 3], []] ∧
+    (Policy.schedule (fun _ => 0) 2 4 .dedicatedPerShard) = [[0], [1], [2], [3]] :=
+  ⟨by decide, by decide, by decide⟩
 
 /-- the merge really dedupes and really rejects: same key same op → one op; same key, two ops →
     conflict (both variants). -/
